@@ -8,16 +8,26 @@ prop("C01", "fault_enumeration",
      "empty raw name / no name / only the empty DNS name / expected label plus empty raw name), holds the certified private key or not "
      "(impostor), certified key in the judge's authorized-key set or not; 'bait' chains: a hand-made (unsigned, or signed by the "
      "presented certificate's key) certificate whose Parent names whatever certificate sits in the intermediate slot - the untrusted "
-     "root, the untrusted intermediate, an untrusted leaf, the TRUSTED root, the trusted intermediate; the judging side's policy: trust "
+     "root, the untrusted intermediate, an untrusted leaf, the TRUSTED root, the trusted intermediate; 'hand-signed world' chains: a root, "
+     "an intermediate and the leaf written and properly signed BY HAND (the issuing API clamps a certificate to its parent's lifetime; the "
+     "holder of an expired CA key is not bound by that), so that each element has its own validity window (valid / expired / not yet valid at "
+     "the judge's clock) - a leaf that outlives its intermediate, an intermediate that outlives its root - with the root in the judge's store "
+     "and the intermediate presented in the handshake, held in the judge's store and not presented, or both (reference: acceptable under the "
+     "store iff all three windows contain the judge's clock; the all-valid variants are sanity controls that must be served); 'low-order "
+     "certified key': a leaf (any chain kind; CA-issued in the matrix) naming one of the 14 encodings of the small-order Curve25519 points "
+     "(0, 1, the two order-8 points, p-1, p, p+1, each with and without the ignored top bit; a self-test checks each against x/crypto's "
+     "X25519), presented by a counterpart - real Client, real Server (through the certificate callbacks) or puppet - whose static key is a "
+     "keys.Exchangable that agrees on 32 zero bytes with everybody, which is the best anybody can do for a point without a private key "
+     "(reference: never acceptable, under any policy: possession cannot be proved); the judging side's policy: trust "
      "store with/without the root, authorized keys allowed, InsecureSkipVerify, expected name (zero / matching / same label other type / "
      "other label / certs.RawStringName(\"\") / certs.DNSName(\"\") / certs.Name{Label: []byte{}} / a label that is one of several on "
      "some leaves), additional-verify callback (none / accepting / rejecting), and nil ClientVerify on the server. The reference name "
-     "decision: no name given, or some name on the leaf has the same type and label bytes. Enumerated: 2 modes x 2 directions x 55 "
-     "counterpart kinds (each attribute deviating alone, plus combinations) x 128 policies (the degenerate expected names are not "
+     "decision: no name given, or some name on the leaf has the same type and label bytes. Enumerated: 2 modes x 2 directions x 83 "
+     "counterpart kinds (each attribute deviating alone, plus combinations; 12 of them hand-signed chains, 16 low-order keys) x 128 policies (the degenerate expected names are not "
      "crossed with the callback); plus rapid-drawn arbitrary attribute/policy combinations. Runs over vlib/simnet inside a synctest "
      "bubble. Oracle (implication only): Client.Handshake()==nil => the server identity satisfies the client's policy and holds the "
      "certified key; discoverable: Accept offers a connection => the client identity satisfies the server's policy and holds its key; "
-     "both modes: Handle.ReadMsg delivers data => same. Honest valid identities must be served (sanity). Non-trivial = counterpart is "
+     "both modes: Handle.ReadMsg delivers data (ANY message, an empty one too) => same. Honest valid identities must be served (sanity). Non-trivial = counterpart is "
      "not the honest valid identity; distinct by (mode, direction, identity, policy). "
      "Family 'real clock' (rapid): VerifyConfig.CurrentTime is left zero on both sides, so validity is judged against the clock - the "
      "bubble's virtual clock; per case a fresh certificate world (root, intermediate, server leaf, 1-3 client leaves, some with their "
@@ -49,8 +59,9 @@ prop("C01", "fault_enumeration",
      "handshakes on one server by the real Client or by a PUPPET: a harness-side client that writes the handshake with the package's "
      "own message writers, presents a chain (mostly the victim's valid chain without its key), and then sends data sealed under EVERY "
      "key set it can compute (transcript after each of its own messages, after the server's answer without the static DH, after the "
-     "answer processed with the key it holds); it learns the session ID from the handshake answer, from the greeting the server "
-     "application writes on an offered connection, or is told it. Oracle unchanged (discoverable: Accept offers => acceptable and key "
+     "answer processed with the key it holds) and then FORGED transport packets for that session ID sealed under no key at all (seeded random "
+     "payload of 0 / 1 / 17 / 64 bytes and random tag, counter next in line and far ahead); it learns the session ID from the handshake answer, from the greeting the server "
+     "application writes on an offered connection, or is told it; one puppet identity in five (of the classic-impostor kind) names a low-order key. Oracle unchanged (discoverable: Accept offers => acceptable and key "
      "held; both modes: data delivered => same); an honest peer (real or puppet) under which no lookup failed is served. Non-trivial = "
      "a lookup failed or a puppet took part, and some identity is unacceptable.",
      ["ML-KEM, X25519, Ed25519 and the duplex are not attacked by search; impostors are structural (valid certificate, other key)",
